@@ -110,7 +110,7 @@ class Obj(Engine):
 
     def _gen_spec(self, rng, kind):
         if kind == 'tx':
-            return gen.gen_tx(rng, 3, 3)
+            return gen.gen_tx(rng, 3, 3, many=True)
         if kind == 'txin':
             return gen.gen_txin(rng)
         if kind == 'txout':
